@@ -164,7 +164,7 @@ func runC04(c *Ctx) {
 			return false
 		}
 		// s[:hrpLen] ranged as runes, or byte positions 0..hrpLen-1 converted to runes (the string is ASCII there)
-		elems := []string{"call<*>(ext#2(next(range(slice(p0, 0, " + hl + ")))))", "call<*>(conv<rune>(index(p0, ind<+1>(0))))"}
+		elems := []string{"call<*>(ext#2(next(range(slice(p0, 0, " + hl + ")))))", "call<*>(conv<rune>(index(p0, ind<+1>(0))))", "call<*>(index(p0, ind<+1>(0)))"}
 		for _, ce := range b2.CondEdges() {
 			if _, m := ana.MatchAny(ce.Lit, elems...); m {
 				if h := calleeOf(ce.Lit); h != nil && forAll(b2, *l, ce.Lit.String()) {
@@ -204,7 +204,7 @@ func runC04(c *Ctx) {
 	// reject-closed
 	rejectPats = append(rejectPats,
 		"bin<>=>(index(p0, ind<+1>(0)), 128)", "bin<>>(index(p0, ind<+1>(0)), 127)",
-		"un<!>(call<*>(ext#2(next(range(slice(p0, 0, "+hl+"))))))", "un<!>(call<*>(conv<rune>(index(p0, ind<+1>(0)))))")
+		"un<!>(call<*>(ext#2(next(range(slice(p0, 0, "+hl+"))))))", "un<!>(call<*>(conv<rune>(index(p0, ind<+1>(0)))))", "un<!>(call<*>(index(p0, ind<+1>(0))))")
 	for _, v := range errs {
 		r.Check(c.vrejectClosed(v, rejectPats...), "C04.exits.reject-closed", c.vpos(v), "error return reachable only through a listed reject reason")
 	}
